@@ -1,20 +1,19 @@
-use rsdd::builder::bdd::RobddBuilder;
-use rsdd::builder::cache::AllIteTable;
-use rsdd::builder::BottomUpBuilder;
-use rsdd::repr::{BddPtr, DDNNFPtr, VarLabel, VarOrder, WmcParams};
-use rsdd::util::semirings::FiniteField;
+use vp::props::c16::SddCacheCase;
+use vp::sddi::*;
+use vp::walk::*;
+use rsdd::builder::sdd::SemanticSddBuilder;
+use rsdd::constants::primes;
 fn main() {
-    for n in [16usize, 20, 22, 24] {
-        let b = RobddBuilder::<AllIteTable<BddPtr>>::new(VarOrder::linear_order(n));
-        let x = |i: usize| b.var(VarLabel::new_usize(i), true);
-        let f = b.or(b.or(b.and(x(0), x(7)), b.negate(x(n - 1))), x(13));
-        let t = std::time::Instant::now();
-        let s = b.smooth(f, n);
-        let mut ones = WmcParams::<FiniteField<{ rsdd::constants::primes::U64_LARGEST }>>::default();
-        for v in 0..n {
-            ones.set_weight(VarLabel::new_usize(v), FiniteField::new(1), FiniteField::new(1));
+    let v: serde_json::Value = serde_json::from_str(&std::fs::read_to_string("/tmp/c16-sem.json").unwrap()).unwrap();
+    let case: SddCacheCase = serde_json::from_value(v["case"].clone()).unwrap();
+    let shape = case.vt.shape();
+    println!("shape {:?}", shape);
+    let b: SemanticSddBuilder<{ primes::U64_LARGEST }> = SemanticSddBuilder::new(case.vt.to_vtree());
+    let mut run = SddRun::new(&b, shape.leaves());
+    for (i, op) in case.ops.iter().enumerate() {
+        if let Some(out) = run.step(op) {
+            let (p, t) = run.pool[out.idx];
+            println!("op#{} {:?} -> pool[{}] args {:?} oracle {:?} walked {:?} {}", i, op, out.idx, out.args, t, sdd_tt(p), if sdd_tt(p) == t { "" } else { "  <<<<<< WRONG" });
         }
-        let c = s.unsmoothed_wmc(&ones).value();
-        println!("n={} count={} nodes={} in {:?}", n, c, s.count_nodes(), t.elapsed());
     }
 }
